@@ -43,6 +43,7 @@ def run(ctx):
     ctx.floor("C16.R1", "public async/sync entry pairs", len(entries), PAIR_FLOOR)
     ctx.count("async_fns_without_same_path_twin", len(un))
     equal = differing = 0
+    pending = []      # (crate, side, token, rule, key, message, loc)
     for a, s in entries:
         oa, os_, ra, rs = a9.region_diff(fb, a, s, mods)
         for k in ra + rs:
@@ -56,9 +57,9 @@ def run(ctx):
         if new_a or new_s:
             for side, toks in (("async-only", new_a), ("sync-only", new_s)):
                 for t in toks:
-                    ctx.violation("C16.R1", "C16.R1/twin-diff/%s/%s/%s" % (a, side, _tok(t)),
-                                  "twins diverge: %s %s appears only on the %s side of %s <-> %s (one twin was edited alone, or a "
-                                  "check/constant/width differs)" % (t[0], t[1:], side.split("-")[0], a, s), fa_.loc())
+                    pending.append((fa_.crate, side, _uncounted(t), "C16.R1", "C16.R1/twin-diff/%s/%s/%s" % (a, side, _tok(t)),
+                                    "twins diverge: %s %s appears only on the %s side of %s <-> %s (one twin was edited alone, or a "
+                                    "check/constant/width differs)" % (t[0], t[1:], side.split("-")[0], a, s), fa_.loc()))
         elif oa or os_:
             differing += 1
             why = next((r for p, r in reasons.items() if a.startswith(p)), None)
@@ -92,13 +93,25 @@ def run(ctx):
         if new_a or new_s:
             for side, toks in (("async-only", new_a), ("sync-only", new_s)):
                 for t in toks:
-                    ctx.violation("C16.R1b", "C16.R1b/group-diff/%s/%s/%s" % (owner, side, _tok(t)),
-                                  "twin types diverge: %s %s appears only on the %s side of the methods of %s" % (
-                                      t[0], t[1:], side.split("-")[0], owner), loc)
+                    pending.append((fb.fns[akeys[0]].crate, side, _uncounted(t), "C16.R1b", "C16.R1b/group-diff/%s/%s/%s" % (owner, side, _tok(t)),
+                                    "twin types diverge: %s %s appears only on the %s side of the methods of %s" % (
+                                        t[0], t[1:], side.split("-")[0], owner), loc))
         else:
             ctx.ok("C16.R1b", owner, "%d async / %d sync methods; differences within the frozen table (%d/%d tokens)" % (
                 len(akeys), len(gs[owner]), len(oa), len(os_)), loc)
     ctx.floor("C16.R1b", "type-level groups", ng, 20)
+    # a token that is new on BOTH sides of the same crate is a consistent two-sided edit that merely sits in differently
+    # shaped regions (e.g. inlined in the async method, in a helper on the sync side): it cancels out
+    by = {}
+    for crate, side, tok, rule, key, msg, loc in pending:
+        by.setdefault((crate, tok), set()).add(side)
+    cancelled = 0
+    for crate, side, tok, rule, key, msg, loc in pending:
+        if len(by[(crate, tok)]) == 2:
+            cancelled += 1
+            continue
+        ctx.violation(rule, key, msg, loc)
+    ctx.count("new_tokens_cancelled_two_sided", cancelled)
 
     # ---------------------------------------------------------------- hand-written poll state machines
     ctx.rule("C16.R2", "poll_* state machines: no field store between a poll call and its Pending return (no lost progress)")
@@ -116,6 +129,13 @@ def run(ctx):
         else:
             ctx.ok("C16.R2", k, "Pending is returned before any self field is stored on that path (or the store re-parks the state)", f.loc())
     ctx.floor("C16.R2", "hand-written poll_* trait methods on the async side", n, 15)
+
+
+def _uncounted(t):
+    t = tuple(str(x) for x in t)
+    if t and t[-1].startswith("x") and t[-1][1:].isdigit():
+        return t[:-1]
+    return t
 
 
 def _norm(t):
